@@ -278,6 +278,6 @@ def gen_case_options(r, proj):
     if x < 0.12:
         iso = ".*"
     elif x < 0.3:
-        iso = r.choice(["^" + n.split("-")[0] for n in proj["packages"]] + ["-dev", "a$", "b|x", "^.$"])
+        iso = r.choice(["^" + n.split("-")[0] for n in proj["packages"]] + ["-dev", "-dev$", "-tgt$", "-[ab]$", "-x-", "a$", "b|x", "^.$"])
     return {"roots": roots, "prefix": r.choice(["", "", "", "pre-", "P.", "j_"]), "isolate": iso,
             "short": r.choice([False, False, True, None]), "sandbox": r.choice(["yes", "yes", "no", "slim"])}
